@@ -9,6 +9,8 @@ import (
 	"path/filepath"
 	"sort"
 	"strings"
+	"runtime"
+	"strconv"
 	"sync"
 	"time"
 )
@@ -144,7 +146,41 @@ func (u *Universe) oblText(o *Obl, withModel bool) string {
 	return b.String()
 }
 
+// loadScale stretches every solver budget when the machine is busy: the
+// budgets are wall-clock, and an obligation that needs 1 s of CPU must not be
+// reported as undischarged because forty other processes share the cores.
+var loadScaleOnce sync.Once
+var loadScaleVal = 1
+
+func loadScale() int {
+	loadScaleOnce.Do(func() {
+		data, err := os.ReadFile("/proc/loadavg")
+		if err != nil {
+			return
+		}
+		f := strings.Fields(string(data))
+		if len(f) == 0 {
+			return
+		}
+		l, err := strconv.ParseFloat(f[0], 64)
+		if err != nil {
+			return
+		}
+		n := float64(runtime.NumCPU())
+		k := int(l/n + 0.999)
+		if k < 1 {
+			k = 1
+		}
+		if k > 6 {
+			k = 6
+		}
+		loadScaleVal = k
+	})
+	return loadScaleVal
+}
+
 func runSolver(s solverCfg, timeout int, file string) (string, string, float64) {
+	timeout *= loadScale()
 	ctx, cancel := context.WithTimeout(context.Background(), time.Duration(timeout+3)*time.Second)
 	defer cancel()
 	t0 := time.Now()
